@@ -1,5 +1,7 @@
 import TsV.Lemmas.Topsort
 import TsV.Lemmas.TopsortOrder
+import TsV.Lemmas.SortByIndices
+import TsV.Model.Deps
 /-!
 # C11 — each definition once, after the definitions it uses
 
@@ -146,5 +148,101 @@ theorem toposort_acyclic_spec (g : List (List Nat)) (hg : wfGraph g = true) (hac
 /-- non-vacuity: the diamond 3 → {1,2} → 0 is acyclic and sorted dependencies-first -/
 example : toposort [[], [0], [0], [1, 2]] = some [0, 1, 2, 3] := by
   simp [toposort, inner, List.range, List.range.loop]
+
+end TsV.C11
+
+namespace TsV.C11
+open TsV.Topsort
+
+/-- **`sort_by_indices` is a gather** (and hence loses or duplicates nothing): for every index vector
+that is a permutation of the positions the in-place cycle-following loop terminates without an
+index panic, and position `i` of the result holds `data[indices[i]]`. -/
+theorem sortByIndices_gather {α} (data : List α) (idx : List Nat)
+    (hperm : idx.Perm (List.range data.length)) :
+    ∃ r, sortByIndices data idx = some r ∧ r.length = data.length ∧
+      ∀ i : Nat, r[i]? = (idx[i]?).bind fun v => data[v]? :=
+  Topsort.sortByIndices_gather data idx hperm
+
+theorem option_mapM_length {α β} (f : α → Option β) : ∀ (l : List α) (r : List β),
+    l.mapM f = some r → r.length = l.length
+  | [], r, h => by simp at h; subst h; rfl
+  | a :: t, r, h => by
+    simp only [List.mapM_cons] at h
+    cases hfa : f a with
+    | none => simp [hfa] at h
+    | some b =>
+      cases ht : t.mapM f with
+      | none => simp [hfa, ht] at h
+      | some bs =>
+        simp [hfa, ht] at h; subst h
+        simp [option_mapM_length f t bs ht]
+
+/-- **the ordering pass end to end**: whenever the dependency graph built from the items is acyclic,
+`topsort` returns the items rearranged by an order that lists every item exactly once and every
+item after all items it depends on. -/
+theorem topsort_items (items : List RustItem) (g : List (List Nat)) (hg : Deps.graph items = some g)
+    (hwf : wfGraph g = true) (hac : Acyclic g) :
+    ∃ out order, Deps.topsort items = some out ∧ order.Perm (List.range items.length) ∧
+      out.length = items.length ∧ (∀ k : Nat, out[k]? = (order[k]?).bind fun v => items[v]?) ∧
+      ∀ i j, i < items.length → Edge g i j → Before order j i := by
+  have hlen : g.length = items.length := by
+    unfold Deps.graph at hg; exact option_mapM_length _ _ _ hg
+  obtain ⟨order, ho, hperm, htop⟩ := toposort_acyclic_spec g hwf hac
+  rw [hlen] at hperm
+  obtain ⟨out, hs, hl, hget⟩ := sortByIndices_gather items order hperm
+  refine ⟨out, order, ?_, hperm, hl, hget, fun i j hi he => htop i j (by omega) he⟩
+  simp [Deps.topsort, hg, ho, hs]
+
+/-- and for *every* graph (cycles included) nothing is lost or duplicated -/
+theorem topsort_perm (items : List RustItem) (g : List (List Nat)) (hg : Deps.graph items = some g)
+    (hwf : wfGraph g = true) : ∃ out, Deps.topsort items = some out ∧ out.Perm items := by
+  have hlen : g.length = items.length := by
+    unfold Deps.graph at hg; exact option_mapM_length _ _ _ hg
+  obtain ⟨order, ho⟩ := Option.isSome_iff_exists.mp (toposort_total g hwf)
+  have hperm := toposort_perm g hwf order ho
+  rw [hlen] at hperm
+  obtain ⟨out, hs, _, _⟩ := sortByIndices_gather items order hperm
+  exact ⟨out, by simp [Deps.topsort, hg, ho, hs], sortByIndices_perm items order out hs⟩
+
+end TsV.C11
+
+namespace TsV.C11
+open TsV.Topsort
+
+theorem option_mapM_mem {α β} (f : α → Option β) : ∀ (l : List α) (r : List β),
+    l.mapM f = some r → ∀ b ∈ r, ∃ a ∈ l, f a = some b
+  | [], r, h, b, hb => by simp at h; subst h; simp at hb
+  | a :: t, r, h, b, hb => by
+    simp only [List.mapM_cons] at h
+    cases hfa : f a with
+    | none => simp [hfa] at h
+    | some b0 =>
+      cases ht : t.mapM f with
+      | none => simp [hfa, ht] at h
+      | some bs =>
+        simp [hfa, ht] at h; subst h
+        simp only [List.mem_cons] at hb
+        rcases hb with rfl | hb
+        · exact ⟨a, by simp, hfa⟩
+        · obtain ⟨a', ha', hf'⟩ := option_mapM_mem f t bs ht b hb
+          exact ⟨a', by simp [ha'], hf'⟩
+
+/-- the graph `topsort` builds only mentions positions of the item list (`get_index` found them
+there), so the two theorems above apply to every item list for which the graph exists -/
+theorem graph_wf (items : List RustItem) (g : List (List Nat)) (hg : Deps.graph items = some g) :
+    wfGraph g = true := by
+  have hlen : g.length = items.length := by
+    unfold Deps.graph at hg; exact option_mapM_length _ _ _ hg
+  rw [wfGraph_iff]
+  intro deps hdeps d hd
+  unfold Deps.graph at hg
+  obtain ⟨it, _, hit⟩ := option_mapM_mem _ _ _ hg deps hdeps
+  obtain ⟨dep, _, hdep⟩ := option_mapM_mem _ _ _ hit d hd
+  cases hl : Deps.lookup items dep with
+  | none => simp [hl] at hdep
+  | some thing =>
+    simp only [hl, Option.bind_some, Deps.getIndex] at hdep
+    have := (List.findIdx?_eq_some_iff_findIdx_eq.1 hdep).1
+    omega
 
 end TsV.C11
